@@ -24,6 +24,18 @@ TIMES = 'history/times.py'; HFILES = 'history/files.py'; TNETS = 'server/tnetstr
 POLL = 'server/enip/poll.py'; DEFAULTS = 'server/enip/defaults.py'; NETWORK = 'server/network.py'
 
 VARIANTS = [
+    V( 'lookup-raw-symbol-first', AUTO, "enc = self.encode( inp )\n try:\n return super( state, self ).__getitem__( enc )", "if self.encoder is None:\n            try:\n                return super( state, self ).__getitem__( inp )\n            except KeyError:\n                pass\n        enc			= self.encode( inp )\n        try:\n            return super( state, self ).__getitem__( enc )", fires=[ 'X-LOOKUP' ] ),
+    V( 'route-request-through-config-helper', UCMM, "or route_path == self.route_path # Or they match", "or [ device.port_link( dict( seg )) for seg in route_path ] == self.route_path", fires=[ 'B-ROUTE' ] ),
+    V( 'route-request-copied', UCMM, "or route_path == self.route_path # Or they match", "or list( route_path ) == self.route_path", silent=[ 'B-ROUTE' ] ),
+    V( 'indexsplit-last-bracket', DOT, "mine, indx = mine.split( '[', 1 )\n indx = eval( indx[:-1],", "mine, indx	= mine[:-1].rsplit( '[', 1 )\n                indx		= eval( indx,", fires=[ 'D-INDEXSPLIT' ] ),
+    V( 'indexsplit-partition', DOT, "mine, indx = mine.split( '[', 1 )\n indx = eval( indx[:-1],", "mine, indx	= mine[:-1].split( '[', 1 )\n                indx		= eval( indx,", silent=[ 'D-INDEXSPLIT', 'D-UNPACK' ] ),
+    V( 'stripset-duration-suffix', TIMES, ".rstrip( '0' )", ".rstrip( '00' )", silent=[ 'W-STRIPSET' ] ),
+    V( 'stripset-context-token', CLIENT, ".rstrip( b'\\0' )", ".rstrip( b'ctx' )", fires=[ 'W-STRIPSET' ] ),
+    V( 'separators-marker-restored-on-timeout', TNET, "yield None\n started = cpppo.timer()", "yield None\n                        started	= cpppo.timer()\n                        begun	= source.sent", fires=[ 'P-SEPARATORS' ] ),
+    # ---- C01 / C14 word-counted sizes ( L-UNITS )
+    V( 'units-epath-limit-in-words', PARSER, "octets = data[path+'..size'] * 2", "octets		= data[path+'..size']", fires=[ 'L-UNITS' ] ),
+    V( 'units-epath-size-in-octets', PARSER, "return USINT.produce( len( result ) // 2 ) +", "return USINT.produce( len( result )) +", fires=[ 'L-UNITS' ] ),
+    V( 'units-limit-commuted', PARSER, "octets = data[path+'..size'] * 2", "octets		= 2 * data[path+'..size']", silent=[ 'L-UNITS' ] ),
     # ---- C12 text -> operation -> service ( T-ATTROPS, T-METHODS )
     V( 'attrops-first-segment', GETATTR, "path_end = op['path'][-1]", "path_end		= op['path'][0]", fires=[ 'T-ATTROPS' ] ),
     V( 'attrops-set-get-swapped', GETATTR, "'set_attribute_single' if 'data' in op else 'get_attribute_single'", "'get_attribute_single' if 'data' in op else 'set_attribute_single'", fires=[ 'T-ATTROPS' ] ),
